@@ -204,6 +204,15 @@ void World::CheckTermination(const InvRecord& r) {
   if (r.plan.l > 0 || r.plan.dry || !r.plan.tool.empty() || r.plan.jobserver) return;
   // a dyndep file produced during the build changes what is wanted mid-build
   for (const SpawnRec& x : r.spawns) for (auto& o : x.outs) if (sc.FindDyndep(o)) return;
+  // ... and so does one that is merely loaded mid-build (its producer had nothing to do but was
+  // waiting for an order-only input): statements it adds enter the plan only then
+  if (!r.spawns.empty()) {
+    int64_t first_spawn = r.spawns[0].sysno;
+    for (const SpawnRec& x : r.spawns) first_spawn = std::min(first_spawn, x.sysno);
+    for (const Ev& e : r.res.trace)
+      if (e.kind == Ev::kOpenRead && e.sysno > first_spawn)
+        for (auto& dd : sc.dyndeps) if (e.s == "/w/" + dd.path) { stats->n["idle_check_skipped_dyndep_loaded_mid_build"]++; return; }
+  }
   int eff_j = r.plan.j > 0 ? r.plan.j : (r.plan.j == 0 ? 1 << 30 : r.plan.nproc + 2);
   std::vector<const SpawnRec*> failed;
   for (const SpawnRec& x : r.spawns) if (x.reap_seq && x.reap_status != 0) failed.push_back(&x);
